@@ -1,7 +1,9 @@
 package main
 
 import (
+	"context"
 	"fmt"
+	"sync"
 	"go/types"
 	"sort"
 	"strings"
@@ -58,6 +60,10 @@ type Env struct {
 	replay        *ReplayInfo
 	asserted      map[string]bool
 	opaque        map[string]bool
+	next0         string
+	pending       sync.WaitGroup
+	writeLog      map[string][]string
+	allocLog      map[string]bool
 }
 
 func newEnv(w *World, top string, timeoutMs int) (*Env, error) {
@@ -136,7 +142,8 @@ func (e *Env) funcID(f *FuncV) string {
 
 func (e *Env) trust(what string) { e.trusted[what] = true }
 
-// oblige records and discharges an obligation: pc ∧ ¬goal must be unsat.
+// oblige records an obligation (pc ∧ ¬goal must be unsat) and discharges it
+// asynchronously as a stand-alone solver run on the assumptions made so far.
 func (e *Env) oblige(kind, label, pc, goal string) *Obligation {
 	if e.dry > 0 {
 		return nil
@@ -151,11 +158,62 @@ func (e *Env) oblige(kind, label, pc, goal string) *Obligation {
 		ob.Verdict, ob.Solver, ob.OK = "unsat", "trivial", true
 		return ob
 	}
-	extra := []string{mkAnd(pc, mkNot(goal))}
-	res := e.sess.Check(extra, e.modelTerms)
-	ob.Query = e.sess.Prefix() + "(assert " + extra[0] + ")\n(check-sat)\n"
-	e.finish(ob, res)
+	ob.Query = e.sess.Prefix() + "(assert " + mkAnd(pc, mkNot(goal)) + ")\n(check-sat)\n"
+	e.pending.Add(1)
+	go func() {
+		defer e.pending.Done()
+		e.discharge(ob)
+	}()
 	return ob
+}
+
+func (e *Env) discharge(ob *Obligation) {
+	script := ob.Query
+	if len(e.modelTerms) > 0 {
+		script += "(get-value (" + strings.Join(e.modelTerms, " ") + "))\n"
+	}
+	solverSlots <- struct{}{}
+	res := runSolver(context.Background(), solvers[0], script, e.timeoutMs)
+	<-solverSlots
+	if res.Verdict == Unknown {
+		solverSlots <- struct{}{}
+		r2 := raceSolvers(script, e.timeoutMs*2, []int{1, 2})
+		<-solverSlots
+		r2.Time += res.Time
+		if r2.Verdict == Unknown {
+			r2.Solver = res.Solver + ":unknown," + r2.Solver
+		}
+		res = r2
+		if res.Verdict == Unknown {
+			// the same query without quantified assumptions: if that is unsat the obligation is
+			// proved from fewer assumptions; if sat, its model is a diagnostic hint only
+			var sb strings.Builder
+			for _, ln := range strings.Split(script, "\n") {
+				if strings.HasPrefix(ln, "(assert") && (strings.Contains(ln, "(forall ") || strings.Contains(ln, "(exists ")) && !strings.Contains(ln, "(check-sat)") {
+					continue
+				}
+				sb.WriteString(ln + "\n")
+			}
+			solverSlots <- struct{}{}
+			rr := runSolver(context.Background(), solvers[0], sb.String(), 5000)
+			<-solverSlots
+			switch rr.Verdict {
+			case Unsat:
+				rr.Time += res.Time
+				res = rr
+				res.Solver += "(qf-relaxed)"
+			case Sat:
+				ob.Note = "undecided; candidate counterexample when quantified assumptions are ignored: " + strings.Join(strings.Fields(rr.Model), " ")
+			}
+		}
+	}
+	ob.Verdict = res.Verdict.String()
+	ob.Solver = res.Solver
+	ob.Time = res.Time
+	ob.OK = ob.Verdict == ob.Expect
+	if res.Verdict == Sat {
+		ob.Model = res.Model
+	}
 }
 
 // cover records a reachability check: pc must be satisfiable.
@@ -165,30 +223,41 @@ func (e *Env) cover(label, pc string) *Obligation {
 	}
 	ob := &Obligation{Name: e.top + ":cover:" + label, Func: e.top, Kind: "cover", Property: e.prop, Expect: "sat", Goal: pc}
 	e.obs = append(e.obs, ob)
-	res := e.sess.Check([]string{pc}, nil)
 	ob.Query = e.sess.Prefix() + "(assert " + pc + ")\n(check-sat)\n"
-	e.finish(ob, res)
-	return ob
-}
-
-func (e *Env) finish(ob *Obligation, res SolveResult) {
-	if res.Verdict == Unknown {
-		// race the stand-alone query on all solvers
-		script := ob.Query
-		if ob.Expect == "unsat" && len(e.modelTerms) > 0 {
-			script += "(get-value (" + strings.Join(e.modelTerms, " ") + "))\n"
+	e.pending.Add(1)
+	go func() {
+		defer e.pending.Done()
+		solverSlots <- struct{}{}
+		res := runSolver(context.Background(), solvers[0], ob.Query, 3000)
+		<-solverSlots
+		if res.Verdict == Unknown {
+			// reachability with quantified assumptions present is usually undecidable for the
+			// solver; fall back to the quantifier-free part (a weaker but still useful vacuity check)
+			var sb strings.Builder
+			for _, ln := range strings.Split(ob.Query, "\n") {
+				if strings.HasPrefix(ln, "(assert") && (strings.Contains(ln, "(forall ") || strings.Contains(ln, "(exists ")) {
+					continue
+				}
+				sb.WriteString(ln + "\n")
+			}
+			solverSlots <- struct{}{}
+			rr := runSolver(context.Background(), solvers[0], sb.String(), 10000)
+			<-solverSlots
+			rr.Time += res.Time
+			if rr.Verdict == Sat {
+				rr.Solver += "(quantified assumptions ignored)"
+			}
+			if rr.Verdict == Unsat {
+				rr.Solver += "(quantifier-free part)"
+			}
+			res = rr
 		}
-		r2 := raceSolvers(script, e.timeoutMs*3, []int{0, 1, 2})
-		r2.Time += res.Time
-		res = r2
-	}
-	ob.Verdict = res.Verdict.String()
-	ob.Solver = res.Solver
-	ob.Time = res.Time
-	ob.OK = ob.Verdict == ob.Expect
-	if res.Verdict == Sat && ob.Expect == "unsat" {
-		ob.Model = res.Model
-	}
+		ob.Verdict = res.Verdict.String()
+		ob.Solver = res.Solver
+		ob.Time = res.Time
+		ob.OK = res.Verdict != Unsat
+	}()
+	return ob
 }
 
 func (e *Env) nextOrdinal(kind string) int {
